@@ -83,7 +83,7 @@ EAE_ = 31
 
 
 def mk_ld(ispriv, iswrite, start=None, final=None, use1=None, sec=True, ee_sym=False, mair='sym', rgn_sym=False,
-          t0sz=None, t1sz=None, focus=None, attrindx=None):
+          t0sz=None, t1sz=None, focus=None, attrindx=None, hyp=False):
     """long-descriptor stage-1 walk (TTBCR.EAE = 1, LPAE configuration, not Hyp, no stage 2).
     start: level the walk starts at (1 / 2, case split on TxSZ<2:1>); final: level of the final descriptor (case split
     over the descriptor types read); use1: TTBR1 / TTBR0 selected; t0sz / t1sz: TTBCR.T0SZ / T1SZ pinned (the shift
@@ -94,7 +94,7 @@ def mk_ld(ispriv, iswrite, start=None, final=None, use1=None, sec=True, ee_sym=F
     def fn(env):
         from armulator.armv6.arm_exceptions import DataAbortException
         from armulator.armv6.memory_attributes import MemType
-        cfg, ov = MC.std_cfg(arch=7, sec=sec, vmsa=True, lpae=True)
+        cfg, ov = MC.std_cfg(arch=7, sec=sec, vmsa=True, lpae=True, virt=hyp)
         tt = 0x00870087 | (0x3F003F00 if rgn_sym else 0)  # T0SZ, EPD0, T1SZ, EPD1 (+ IRGN/ORGN/SH of the walks)
         tbase = 1 << EAE_
         if t0sz is not None:  # case split on the region sizes (the walk's shift amounts become numerals)
@@ -106,15 +106,21 @@ def mk_ld(ispriv, iswrite, start=None, final=None, use1=None, sec=True, ee_sym=F
         sym = {'sctlr': ((1 << EE_) if ee_sym else 0) | (1 << AFE_), 'ttbr0_64': 0xFFFFFFFFF8,
                'ttbr1_64': 0xFFFFFFFFF8, 'ttbcr': tt}
         st = {'sctlr': (1 << M_) | (1 << TRE_) | (1 << 22), 'ttbcr': tbase, 'fcseidr': 0}
+        mregs = ('hmair0', 'hmair1') if hyp else ('mair0', 'mair1')
         if mair == 'sym':
-            sym['mair0'] = 0xFFFFFFFF
-            sym['mair1'] = 0xFFFFFFFF
+            sym[mregs[0]] = 0xFFFFFFFF
+            sym[mregs[1]] = 0xFFFFFFFF
         else:
-            st['mair0'], st['mair1'] = mair
-        m = MC.Machine(env, cfg, ov, thumb=False, mode=('svc' if ispriv else 'usr'), sym_sys=sym, set_sys=st)
+            st[mregs[0]], st[mregs[1]] = mair
+        if hyp:
+            # Hyp-mode stage 1: HTTBR / HTCR.T0SZ / HSCTLR.{M,EE} / HMAIRn; Non-secure state
+            st.update(scr=1, hsctlr=1, htcr=(t0sz or 0))
+            sym.update(httbr=0xFFFFFFFFF8, hsctlr=((1 << EE_) if ee_sym else 0), htcr=(0 if t0sz is not None else 7))
+        m = MC.Machine(env, cfg, ov, thumb=False, mode=('hyp' if hyp else 'svc' if ispriv else 'usr'), sym_sys=sym,
+                       set_sys=st)
         va = env.var('va', 32)
         VA = to_bv(va, 32)
-        o = vmsa.translate_v_ld(m.pre, VA, z3.BoolVal(ispriv), z3.BoolVal(iswrite))
+        o = vmsa.translate_v_ld(m.pre, VA, z3.BoolVal(ispriv), z3.BoolVal(iswrite), hyp=hyp)
         env.assume(z3.Not(o['unpred']))
         if start is not None:
             env.assume(o['start2'] == (start == 2))
@@ -150,7 +156,7 @@ def mk_ld(ispriv, iswrite, start=None, final=None, use1=None, sec=True, ee_sym=F
             env.note('outcome', 'fault:' + type(exc).__name__)
             cl.append(holds('fault (reported or not-implemented) only when the tables deny the access', o['fault']))
             if isinstance(exc, NotImplementedError):
-                return cl + m.compare(E, skip=('sys.dfar', 'sys.dfsr'))
+                return cl + m.compare(E, skip=('sys.dfar', 'sys.dfsr', 'sys.hdfar', 'sys.hsr', 'sys.hpfar'))
             return cl
         env.note('outcome', 'ok')
         cl.append(holds('translation succeeds only when the architecture allows the access', z3.Not(o['fault'])))
@@ -246,6 +252,7 @@ def ld_units(tier):
 
     def add(tag, pw, **kw):
         ispriv, iswrite = PW[pw % 4]
+        assert ispriv or not kw.get('hyp')
         name = 'ld_walk/%s/%s/%s' % (tag, 'priv' if ispriv else 'user', 'w' if iswrite else 'r')
         us.append(UnitSpec(name, 'vf.c15', 'mk_ld', dict(kw, ispriv=ispriv, iswrite=iswrite), max_paths=500000,
                            max_seconds=3000, weight=8))
@@ -261,6 +268,9 @@ def ld_units(tier):
         add('T0=4,T1=4/final=3/ns-table/attr2', 3, t0sz=4, t1sz=4, final=3, focus='ns', attrindx=2,
             mair=MAIR_INJECTIVE)
         add('T0=0,T1=1/final=1/ap-table/attr7', 2, t0sz=0, t1sz=1, final=1, attrindx=7, mair=MAIR_INJECTIVE)
+        add('hyp/T0=0/final=start', 3, t0sz=0, final='start', hyp=True, mair=MAIR_INJECTIVE)
+        add('hyp/T0=2/final=3/xn-table/attr6', 0, t0sz=2, final=3, focus='xn', attrindx=6, hyp=True,
+            mair=MAIR_INJECTIVE)
         return us
     i = 0
     for t0 in range(8):
@@ -283,6 +293,17 @@ def ld_units(tier):
     for pw in range(4):
         add('T0=0,T1=3/final=start/ee-sym', pw, t0sz=0, t1sz=3, final='start', ee_sym=True, mair=MAIR_INJECTIVE)
         add('T0=2,T1=0/final=start/nosec', pw, t0sz=2, t1sz=0, final='start', sec=False, mair=MAIR_INJECTIVE)
+    # Hyp-mode stage 1 (Virtualization Extensions; HTTBR, HTCR.T0SZ, HSCTLR.EE, HMAIRn)
+    for t0 in range(8):
+        for pw in (0, 3):
+            add('hyp/T0=%d/final=start' % t0, pw, t0sz=t0, final='start', hyp=True,
+                mair=('sym' if t0 % 4 == 0 else MAIR_INJECTIVE), ee_sym=(t0 == 1))
+    for j, t0 in enumerate((0, 2, 5)):
+        for pw in (0, 3):
+            add('hyp/T0=%d/final=2/%s-table' % (t0, foci[j]), pw, t0sz=t0, final=2, focus=foci[j], hyp=True,
+                mair=MAIR_INJECTIVE)
+            add('hyp/T0=%d/final=3/%s-table/attr%d' % (t0, foci[(j + 1) % 3], j + 2), pw, t0sz=t0, final=3,
+                focus=foci[(j + 1) % 3], attrindx=j + 2, hyp=True, mair=MAIR_INJECTIVE)
     add('T0=1,T1=1/final=start/walk-attrs-sym', 0, t0sz=1, t1sz=1, final='start', rgn_sym=True, attrindx=3,
         mair=MAIR_INJECTIVE)
     return us
@@ -304,7 +325,8 @@ META = {
                    'a translation succeeds exactly when the oracle reports no fault.',
     'bounds': ['short-descriptor format, stage 1, SCTLR.TRE = 1, hardware access-flag update off',
                'quick: TTBCR.N in {0,2}, SCTLR.EE = 0, one injective PRRR/NMRR setting, TTBR attribute bits [6:0] fixed; thorough: N in {0,1,2,7} with EE symbolic, PRRR/NMRR fully symbolic for N = 0, and a no-security-extension configuration',
-               'long-descriptor format: stage 1 at PL1&0 only (not Hyp, no stage 2), FCSE PID = 0; each unit pins '
+               'long-descriptor format: stage 1 at PL1&0 and the Hyp-mode stage 1 (HTTBR/HTCR/HMAIRn; Hyp-mode AP/PXN/nG '
+               'settings the architecture calls UNPREDICTABLE excluded), no stage 2, FCSE PID = 0; each unit pins '
                'T0SZ/T1SZ (quick: 8 pairs; thorough: all 64 pairs for walks ending at their first level, 8 pairs for '
                'deeper walks), the level of the final descriptor, and which of the table-descriptor control bits '
                '(APTable / NSTable / XNTable+PXNTable) are symbolic while the others are 0; MAIR symbolic in the '
@@ -313,8 +335,8 @@ META = {
     'outside': ['SCTLR.TRE = 0 (remap_regs_have_reset_values is a NotImplementedError stub)', 'hardware access flag '
                 'update (mem.set_bits stub)', 'long-descriptor FAULT REPORTS: every long-descriptor fault ends in the '
                 'tlb_lookup_came_from_cache_maintenance NotImplementedError stub, so for faulting walks only "the '
-                'architecture faults here, and nothing else changed" is claimed, not DFSR/DFAR', 'stage 2, Hyp-mode '
-                'stage 1, short-descriptor faults under LPAE (same stub)', 'reserved TRn=11 / region 6',
+                'architecture faults here, and nothing else changed" is claimed, not DFSR/DFAR', 'stage 2, '
+                'short-descriptor faults under LPAE (same stub)', 'reserved TRn=11 / region 6',
                 'physical memory above 4 GB (the hub model has no controller there: descriptor fetches read zero)'],
     'stubs': stubs.STUBS_DOC,
     'trusted_base': ['z3', 'symx engine', 'spec/vmsa.py transcription of DDI 0406C B3.19 / B3.6 / B4.1.104'],
